@@ -40,9 +40,9 @@ PLAN = {
         "assumptions": [],
     },
     "C06": {
-        "pkg": ["vts", "vh"],
+        "pkg": ["vts", "vh", "vsy"],
         "level": "fault_enumeration",
-        "parts": [part("mc_proto", "c06", q=16, t=16, tq=300), part("mc_server", "c06", q=16, t=16, tq=200, tt=2400)],
+        "parts": [part("mc_proto", "c06", q=16, t=16, tq=300), part("mc_server", "c06", q=16, t=16, tq=200, tt=2400), part("mc_sync", "c06s", q=16, t=16, tq=200, tt=2400)],
         "assumptions": ["serde_json is the trusted JSON parser of both service and classifier", "messages with duplicate or unknown top-level members and top-level arrays are classified 'either'"],
     },
     "C17": {
@@ -57,17 +57,17 @@ PLAN = {
         "assumptions": ["sync-granularity part: the pool's shared state is reached only through std::sync RwLock / Mutex / atomics / mpsc (those operations are the scheduling points; sequentially consistent atomics are assumed, weaker orderings are not modelled)", "idle workers are interchangeable (any parked worker may take the next queued message)", "jobs are long-lived connections that end when the environment says so"],
     },
     "C13": {
-        "pkg": ["vts", "vh"],
+        "pkg": ["vts", "vh", "vsy"],
         "level": "model_checking",
         "parts": [part("mc_server", "c13", q=16, t=16, tq=200, tt=2400),
-                  part("mc_server", "conf", q=1, t=1, tq=200, tt=1200, args={"quick": ["--prop", "C13"], "thorough": ["--prop", "C13"]})],
+                  part("mc_server", "conf", q=1, t=1, tq=200, tt=1200, args={"quick": ["--prop", "C13"], "thorough": ["--prop", "C13"]}), part("mc_sync", "c13s", q=16, t=16, tq=200, tt=2400)],
         "assumptions": ["in-memory streams stand in for sockets (accept hook); writes are not scheduling points (each connection writes only to its own buffer)"],
     },
     "C15": {
-        "pkg": ["vts", "vh"],
+        "pkg": ["vts", "vh", "vsy"],
         "level": "model_checking",
         "parts": [part("mc_server", "c15", q=16, t=16, tq=200, tt=2400),
-                  part("mc_server", "conf", q=1, t=1, tq=200, tt=1200, args={"quick": ["--prop", "C15"], "thorough": ["--prop", "C15"]})],
+                  part("mc_server", "conf", q=1, t=1, tq=200, tt=1200, args={"quick": ["--prop", "C15"], "thorough": ["--prop", "C15"]}), part("mc_sync", "c15s", q=16, t=16, tq=200, tt=2400)],
         "assumptions": ["virtual clock: an accept timeout advances time by exactly the requested timeout", "Listener::new binds a real socket path per execution so the unlink clause is observed on the real file system"],
     },
     "C07": {
